@@ -19,10 +19,10 @@ ExprKinds == {
   N("Sum", << KI(0) >>), N("Product", << KI(0), y >>), B("Quotient", KI(0), y),
   B("FloorDiv", y, KI(2)), Cmp(y, "<", z) }
 NumKinds0 == { KI(0), KI(1), KI(-1), KI(2), K(FltV(0, 1)), K(FltV(1, 1)),
-              K(BoolV(TRUE)), K(BoolV(FALSE)), K(FltV(3, 2)) }
+              K(BoolV(TRUE)), K(BoolV(FALSE)), K(FltV(3, 2)), K(FltV(1, 2)) }
 ExprSmall == { x, N("Sum", << y, z >>), N("Product", << y, z >>), B("Quotient", y, z),
                N("Product", << KI(0), y >>) }
-NumSmall == { KI(0), KI(1), KI(-1), KI(2), K(BoolV(TRUE)) }
+NumSmall == { KI(0), KI(1), KI(-1), KI(2), K(BoolV(TRUE)), K(FltV(1, 2)) }
 
 HoleP(ty) == [t |-> "hole", ty |-> ty]
 RECURSIVE PNHoles(_), PFirstTy(_), PFill(_, _)
@@ -79,6 +79,9 @@ Depth1 ==
          CallP(Leaf(V("g")), << >>, << KwArg("k2", As), KwArg("k1", As) >>),
          IdxP(E, A), IdxP(Leaf(tt), Nm), IdxP(Leaf(tt), Leaf(N("Tup", << >>))),
          IdxP(Leaf(tt), Leaf(N("Tup", << KI(1) >>))),
+         IdxP(Leaf(V("m")), Leaf(N("Tup", << KI(1) >>))), IdxP(Leaf(V("m")), Leaf(KI(1))),
+         IdxP(Leaf(V("m")), Leaf(N("Tup", << KI(0), KI(1) >>))), IdxP(Leaf(V("m")), Leaf(N("Tup", << >>))),
+         IdxP(Leaf(V("m")), Leaf(KI(2))),
          AttrP(E, "p"), AttrP(Leaf(oo), "p"), AttrP(Leaf(oo), "q") }
 \* depth 2: op2(op1(a, b), c) and op2(c, op1(a, b)) over the reduced kinds
 Inner == { BinP(op, Es, As) : op \in BinOps } \cup { BinP(op, Ns, Es) : op \in BinOps }
